@@ -5,10 +5,12 @@
      - it delivers data only to names that were chosen.
    (That the bytes delivered to a chosen name are the file's bytes is the round-trip theorem of
    C01 instantiated on the linear walk; see props/C12.v.) *)
+From MLA Require Import Limit.
 From MLA Require Import Base Stream Blocks Reader.
 Open Scope N_scope.
 
 Section Lin.
+  Context {LIM : Limit}.
   Variable FNMAX : N.
   Variables T_START T_CONTENT T_EOA T_EOF : N.
   Variable S : Stream.
